@@ -22,7 +22,7 @@ def gen_cases(ctx: Ctx):
         N = E * S
         cases.append(dict(kind="api", E=E, S=S, B=rng.randint(1, N), okind=["flat", "dict", "tuple"][i % 3], masks=(i % 2 == 0),
                           seeds=[rng.randrange(1000) for _ in range(ctx.pick(3, 8))]))
-    shapes = [(2, 4, 3, 2), (1, 8, 3, 2), (2, 4, 2, 2), (3, 3, 2, 3), (1, 6, 2, 2)] + ([(2, 8, 3, 2), (4, 4, 5, 2), (2, 3, 2, 2)] if ctx.thorough else [])
+    shapes = [(2, 4, 3, 2), (1, 8, 3, 2), (2, 4, 2, 2), (3, 3, 2, 3), (1, 6, 2, 2), (2, 5, 3, 2), (1, 7, 2, 3)] + ([(2, 8, 3, 2), (4, 4, 5, 2), (2, 3, 2, 2)] if ctx.thorough else [])
     for (E, S, nb, ep) in shapes:
         for _ in range(ctx.pick(6, 24)):
             cases.append(dict(kind="train", E=E, S=S, nb=nb, epochs=ep, seed=rng.randrange(2 ** 31)))
